@@ -1,6 +1,6 @@
 (* C11: store/to_zarr fill every target completely, and only inside the requested region. *)
 
-From CubedV Require Import Model.Util Model.Geometry Model.StoreRegion Proofs.StoreProofs.
+From CubedV Require Import Model.Util Model.Geometry Model.StoreRegion Model.StoreGuard Proofs.StoreProofs Proofs.StoreGuardProofs.
 
 
 Theorem C11_region_task_exact : forall a b, accepted_axis a -> In b (out_blocks_axis a) ->
@@ -48,3 +48,27 @@ Example C11_rejects_misaligned : region_accepts [RA 8 4 2 6 4 4] = RejectValue.
 Proof. reflexivity. Qed.
 Example C11_rejects_chunk_mismatch : region_accepts [RA 8 4 4 8 4 2] = RejectValue.
 Proof. reflexivity. Qed.
+
+(* -- StoreGuard.v: the two region refusals in the shape the source is translated into on every run ----------------- *)
+Theorem C11_misaligned_view : forall a : raxis,
+  misalignedZ (Z.of_nat (rstart a)) (Z.of_nat (rstop a)) (Z.of_nat (tc a)) (Z.of_nat (tn a)) = negb (aligned a).
+Proof. exact (misalignedZ_view). Qed.
+Print Assumptions C11_misaligned_view.
+
+Theorem C11_chunks_mismatch_view : forall a : raxis,
+  chunks_mismatchZ (Z.of_nat (sn a)) (Z.of_nat (sc a)) (Z.of_nat (tc a)) (Z.of_nat (nblocks (sn a) (sc a))) = negb (chunks_ok a).
+Proof. exact (chunks_mismatchZ_view). Qed.
+Print Assumptions C11_chunks_mismatch_view.
+
+Theorem C11_region_accepts_source_tests : forall axes,
+  region_accepts axes = Accept ->
+  forall a, In a axes ->
+    misalignedZ (Z.of_nat (rstart a)) (Z.of_nat (rstop a)) (Z.of_nat (tc a)) (Z.of_nat (tn a)) = false /\
+    chunks_mismatchZ (Z.of_nat (sn a)) (Z.of_nat (sc a)) (Z.of_nat (tc a)) (Z.of_nat (nblocks (sn a) (sc a))) = false.
+Proof. exact (region_accepts_source_tests). Qed.
+Print Assumptions C11_region_accepts_source_tests.
+
+Example C11_guards_example :
+  misalignedZ 2 4 2 8 = false /\ misalignedZ 1 4 2 8 = true /\ misalignedZ 2 7 2 7 = false /\ misalignedZ 2 7 2 8 = true /\
+  chunks_mismatchZ 2 1 2 2 = true /\ chunks_mismatchZ 1 1 2 1 = false /\ chunks_mismatchZ 3 3 2 1 = true /\ chunks_mismatchZ 4 2 2 2 = false.
+Proof. vm_compute. repeat split. Qed.
